@@ -474,7 +474,7 @@ class Lemma_PoE_equivariance(Contract):
     """one factor of the product of exponentials is equivariant: Exp6(Ad(B) S theta) = B Exp6(S theta) inv(B) for every
     base pose B, unit-axis screw S and angle theta outside the cut-off -- by induction on the number of factors,
     PoE(B M, Ad(B) S, theta) = B PoE(M, S, theta) for chains of ANY length (lemma over the contracts of C05)"""
-    prop = 'C05'
+    prop = ('C05', 'C13')      # C13 telescopes the loader's screws with it
     target = None
     timeout = 60.0
 
